@@ -25,6 +25,8 @@ def _w(obj):
     with open(os.path.join(REC, "%s-%d.jsonl" % (os.environ.get("PYTEST_XDIST_WORKER", "ctl"), os.getpid())), "a") as f:
         f.write(json.dumps(obj, default=str) + "\n")
 def _is_worker(config): return hasattr(config, "workerinput")
+_w({"k": "import-env", "env_worker": os.environ.get("PYTEST_XDIST_WORKER"), "env_count": os.environ.get("PYTEST_XDIST_WORKER_COUNT"),
+    "env_uid": os.environ.get("PYTEST_XDIST_TESTRUNUID"), "pid": os.getpid()})
 
 @pytest.hookimpl(tryfirst=True)
 def pytest_runtest_protocol(item, nextitem):
@@ -207,6 +209,13 @@ def check_identities(res: CompResult, r: dict[str, Any], n: int, ops: list[str])
             fire("worker-count-wrong", f"PYTEST_XDIST_WORKER_COUNT={x['env_count']} with -n{n}")
         if x["env_uid"] != x["fx_uid"]:
             fire("uid-env-fixture-differ", f"testrun uid env={x['env_uid']} fixture={x['fx_uid']}")
+    for x in r["records"]:
+        if x["k"] == "import-env" and x["pid"] in by_pid:        # a worker process: what it saw when its conftest was imported
+            inproc = next(iter(by_pid[x["pid"]]))
+            uid = next((i["env_uid"] for i in idents if i["pid"] == x["pid"]), None)
+            if x["env_worker"] != inproc or x["env_count"] != str(n) or x["env_uid"] != uid:
+                fire("env-not-set-at-startup", f"worker {inproc}: while its conftest was imported the environment said worker={x['env_worker']} "
+                     f"count={x['env_count']} uid={x['env_uid']}")
     ids_per_proc = [next(iter(s)) for s in by_pid.values() if len(s) == 1]
     if len(set(ids_per_proc)) != len(ids_per_proc) or any(len(s) != 1 for s in by_pid.values()):
         fire("worker-id-shared", f"worker ids per process: { {p: sorted(s) for p, s in by_pid.items()} }")
